@@ -68,6 +68,9 @@ pub struct NodeGhost {
     pub max_term_told: u64,
     /// (term, candidate) for every vote grant released
     pub votes: Vec<(u64, u64)>,
+    /// highest index acknowledged (released non-reject MsgAppendResponse) per message term,
+    /// with the term of the acknowledged entry: (message term, index, entry term)
+    pub acked: Vec<(u64, u64, u64)>,
 }
 
 #[derive(Clone)]
@@ -1005,10 +1008,18 @@ impl World {
                 self.deliver(to as usize - 1, m, ctx)
             }
             Action::Dup(from, to) => {
+                // the network duplicates the head message: one copy is delivered now, the other
+                // stays in flight behind everything already queued on the link (a late duplicate;
+                // an immediate one when the link holds nothing else)
                 if charge {
                     self.used.dups += 1;
                 }
-                let m = self.net[&(from, to)][0].clone();
+                let m = {
+                    let q = self.net.get_mut(&(from, to)).unwrap();
+                    let m = q.remove(0);
+                    q.push(m.clone());
+                    m
+                };
                 self.deliver(to as usize - 1, m, ctx)
             }
             Action::Drop(from, to) => {
@@ -1704,6 +1715,12 @@ impl World {
             w.us(node.g.votes.len());
             for (t, c) in &node.g.votes {
                 w.u64(*t);
+                w.u64(*c);
+            }
+            w.us(node.g.acked.len());
+            for (a, b, c) in &node.g.acked {
+                w.u64(*a);
+                w.u64(*b);
                 w.u64(*c);
             }
             match &node.live {
